@@ -195,6 +195,24 @@ def main():
             pg_one('pgsql.common.quote_ident', v, pgc.quote_ident(v), 'IDENT')
             pg_one('pgsql.common.quote_col', v, pgc.quote_col(v), 'COLIDENT')
             pg_one('pgsql.common.quote_ident(force)', v, pgc.quote_ident(v, force=True), 'IDENT')
+    # identifiers at a code-generator call site: a column reference `<qualifier>.id` written by the SQL code generator; the qualifier must be read back with its original value
+    # (the trigger pseudo-relations are spelled exactly OLD / NEW and are the only names written bare on purpose)
+    def colref(names):
+        g = pcg.SQLSourceGenerator(pcg.codegen.Options() if hasattr(pcg.codegen, 'Options') else None); g.visit_ColumnRef(pgast.ColumnRef(name=names)); return ''.join(g.result)
+    quals = [v for v in corpus if v != '' and '\0' not in v and len(v) <= 4] + ['New', 'Old', 'nEW', 'oLD', 'new', 'old', 'NEW', 'OLD', 'News', 'table', 'User']
+    for v in dict.fromkeys(quals):
+        res['checks'] += 1
+        try: produced = colref([v, 'id'])
+        except Exception as e: fail('pgsql.codegen.visit_ColumnRef', v, '', 'raised %r' % (e,)); continue
+        ts = pg_tokens(produced, pgkw)
+        ok = len(ts) == 3 and ts[1][0] == 'OP' and ts[1][1] == '.' if False else None
+        # expected shape: <ident> . <ident>
+        idents = [t for t in ts if t[0] in ('IDENT', 'KEYWORD')]
+        if len(idents) != 2 or len(ts) != 3: fail('pgsql.codegen.visit_ColumnRef', v, produced, 'PostgreSQL reads %r' % (ts[:5],)); continue
+        q = idents[0]
+        if v in ('OLD', 'NEW'):
+            if q[1].lower() != v.lower(): fail('pgsql.codegen.visit_ColumnRef', v, produced, 'trigger pseudo-relation read as %r' % (q,))
+        elif q[1] != v: fail('pgsql.codegen.visit_ColumnRef', v, produced, 'qualifier read back as %r (case folding / wrong quoting)' % (q[1],))
     res['failure'] = res['failures'][0] if res['failures'] else None
     res['n_failures'] = len(res['failures']); res['failures'] = res['failures'][:400]
     json.dump(res, open(out, 'w'), indent=1)
